@@ -395,6 +395,19 @@ def run(ctx):
                                        mode=rng.choice(modes), le=le, re=re_))
             case.update(film=film.decode().strip(), curves=[dict(outp=c['outp'].decode(), trac=c['trac'].decode(), mode=c['mode'].decode(), le=c['le'], re=c['re']) for c in curves])
             try:
+                # the FILM table of this plot: any of the grid layouts and depth scales the library knows ("at every scale")
+                grids = [(b'E20 ', b'-4--'), (b'EEE ', b'----'), (b'E2E ', b'-1--'), (b'E2E ', b'-2--'), (b'E3E ', b'-3--'), (b'E4E ', b'-4--'), (b'EEB ', b'----'),
+                         (b'EBE ', b'----'), (b'EB0 ', b'----'), (b'E1E ', b'-4--'), (b'E40 ', b'-4--')]
+                dscas = [b'D200', b'D200', b'D500', b'DM  ', b'S5  ', b'S2  ', b'D20 ', b'D40 ']
+                fb = b'"\x00' + b'IA\x04\x00TYPE    FILM'
+                film_desc = []
+                for fm in (b'1   ', b'2   '):
+                    (gc, gd), ds = rng.choice(grids), rng.choice(dscas)
+                    fb += (b'\x00A\x04\x00MNEM    ' + fm + b'EA\x04\x00GCOD    ' + gc + b'EA\x04\x00GDEC    ' + gd + b'EA\x04\x00DEST    PF' + fm[:1] + b' '
+                           + b'EA\x04\x00DSCA    ' + ds)
+                    film_desc.append((fm.decode().strip(), gc.decode(), gd.decode(), ds.decode()))
+                case['films'] = film_desc
+                film_lr = LogiRec.LrTableRead(single_lr_file(fb))
                 plotter = Plot.PlotReadLIS(film_lr, LogiRec.LrTableRead(single_lr_file(pres_bytes(curves))))
             except Exception as e:
                 ctx.fail('PlotReadLIS raised %s: %s for %s' % (type(e).__name__, e, json.dumps(case)[:300]), case, sig=dict(kind='plot-config'))
